@@ -560,6 +560,12 @@ let life_run (line : string) : string =
         quiesce 1000; r
       | "call" :: id :: _ ->
         (match conn_st !st (nat_of_int (int_of_string id)) with CServed -> "ok" | _ -> "err")
+      | "badcall" :: id :: _ ->
+        let c = nat_of_int (int_of_string id) in
+        (match conn_st !st c with
+         | CServed -> ignore (step (LEnd c)); quiesce 1000; "ended"
+         | CRefused -> "none"
+         | _ -> ignore (step (LEnd c)); quiesce 1000; "notended")
       | "close" :: id :: _ ->
         let c = nat_of_int (int_of_string id) in
         (match conn_st !st c with
@@ -601,7 +607,7 @@ let act_run (line : string) : string =
         | _ -> None) in
     let e = { e_pid = z_of_int pid; e_listen_pid = lp; e_listen_fds = opt fds; e_fdnames = opt names } in
     let ks = if kinds = "-" then [] else String.split_on_char ',' kinds in
-    let is_socket fd = let i = int_of_z fd - 3 in i >= 0 && i < List.length ks && List.nth ks i = "s" in
+    let is_socket fd = let i = int_of_z fd - 3 in i >= 0 && i < List.length ks && (List.nth ks i = "s" || List.nth ks i = "S") in
     (match choose_listener e is_socket with
      | LInherited fd -> "inherited:" ^ string_of_int (int_of_z fd - 3)
      | LBindAddress -> "fallback")
